@@ -104,6 +104,10 @@ for pr in HP:
     ob("addr.valid.%s.n4" % pr, "addr/addr.c", ["-DOP_VALID_HP", '-DPROTO="%s"' % pr, "-DPFUN=xcm_addr_parse_" + pr, "-DNTAIL=4"], ["C12"],
        tier="thorough", unwind=18, unwindset=["strcmp.0:34", "strncpy.0:42"], timeout=2400,
        desc="xcm_addr_is_valid agrees with xcm_addr_parse_%s on '%s:' + 4 arbitrary bytes" % (pr, pr))
+for pr, q in (("tcp", "quick"), ("btls", "thorough")):
+    ob("addr.parse.%s.port12" % pr, "addr/addr.c", ["-DOP_PARSE_HP", "-DFIXHOST", '-DPROTO="%s"' % pr, "-DPFUN=xcm_addr_parse_" + pr, "-DNTAIL=14"], ["C12"], tier=q,
+       unwind=22, unwindset=["strcmp.0:34", "strncpy.0:42"], timeout=1500,
+       desc="xcm_addr_parse_%s on '%s:a:' followed by 12 arbitrary bytes: port fields of up to 12 characters (values beyond 2^32 included) are accepted only as 1-5 decimal digits <= 65535" % (pr, pr))
 for pr in ("tcp", "btls"):
     for kind, kn in ((0, "name"), (1, "ipv4"), (2, "ipv6")):
         if pr == "btls" and kind != 2:
